@@ -120,6 +120,14 @@ def liftE {α : Type} : Except Err α → M α
   | .ok a => Prog.pure a
   | .error e => Prog.fail e
 
+/-- `a[b[0]]`: the lexer fuses the two closers into one `]]` token; the matcher takes them apart
+    again when it expects a single `]` and the bracket around it is a `[` as well -/
+def fusedClosers (ty expected : String) (stack : List String) : Bool :=
+  ty == "DBL_RBRACKET" && expected == "]" && stack.head? == some "]"
+
+/-- one of the two `]` a fused `]]` stands for -/
+def unfused (tok : CTok) : CTok := { tok with type := "]", value := "]" }
+
 /-- one iteration of `_consume_balanced_tokens` after `tok` was read; `stack` has its top first -/
 def balStep (st : List CTok × List String) (tok : CTok) : Except Err ((List CTok × List String) ⊕ List CTok) :=
   let consumed := st.1 ++ [tok]
@@ -127,7 +135,11 @@ def balStep (st : List CTok × List String) (tok : CTok) : Except Err ((List CTo
     match st.2 with
     | [] => .error (.py "IndexError" "pop from an empty deque")
     | expected :: stack =>
-      if tok.type != expected then
+      if fusedClosers tok.type expected stack then
+        let consumed := st.1 ++ [unfused tok, unfused tok]
+        let stack := stack.tail
+        if stack.isEmpty then .ok (.inr consumed) else .ok (.inl (consumed, stack))
+      else if tok.type != expected then
         -- hack: assume `<`/`>` are doing math
         if tok.type != ">" && expected != ">" then .error (unexpectedErr tok expected)
         else if tok.type = ">" then .ok (.inl (consumed, expected :: stack))
